@@ -83,4 +83,13 @@ CanonForm(t) ==
 
 (* the two terms differ at most by order / duplication / nesting of union members *)
 OrderVariant(a, b) == a # b /\ SpecEq(a, b)
+
+(* the two terms are different types that become equal when a raw-bool literal (the form the   *)
+(* pyi parser builds) is replaced by the int literal Python compares it equal to (True == 1)   *)
+RECURSIVE NormLit(_)
+NormLit(t) ==
+  IF t = Lit("pybool:True") THEN Lit("int:1")
+  ELSE IF t = Lit("pybool:False") THEN Lit("int:0")
+  ELSE <<Tag(t), Name(t), [k \in DOMAIN Args(t) |-> NormLit(Args(t)[k])]>>
+LitVariant(a, b) == ~SpecEq(a, b) /\ SpecEq(NormLit(a), NormLit(b))
 =============================================================================
